@@ -48,6 +48,11 @@ def check_scan(rep, rule, inst, file, line, it, st, seq, S, first_index, init_wa
     # the traversal source, whatever produced the recurrence (map with a stateful closure, scan, or an explicit loop)
     while isinstance(s, Stream) and s.kind in ('map', 'scan', 'fromfn'):
         s = s.parts[0]
+    if isinstance(s, Stream) and s.kind == 'skip' and isinstance(s.parts[1], tuple) and s.parts[1][0] == 'ic' and \
+            isinstance(s.parts[0], Stream) and s.parts[0].kind == 'src' and isinstance(s.parts[0].parts[0], SliceRef):
+        # `iter().skip(k)` over the whole vector is the traversal of `[k..]` (this path is taken for a non-empty vector)
+        sl0 = s.parts[0].parts[0]
+        s = Stream('src', (SliceRef(sl0.root, sl0.path, it.iadd(sl0.start, s.parts[1]), sl0.end, sl0.mut), s.parts[0].parts[1]))
     if not (isinstance(s, Stream) and s.kind == 'src' and isinstance(s.parts[0], SliceRef)):
         return ['%s: source is not a traversal of the segments' % what]
     sl = s.parts[0]
